@@ -228,6 +228,10 @@ class SSHX11ClientForwarder(SSHForwarder):
                 pass
 
             self._inpbuf = b''
+
+            # The client is not authorized: relay nothing further and
+            # drop the connection to the X server
+            self.close()
         else:
             self._inpbuf = (self._prefix + self._auth_proto +
                             self._auth_proto_pad + self._auth_data +
